@@ -132,8 +132,9 @@ Section WithOracles.
     | Some c, PStruct _ a =>
         match (if compact then compact_applies c else None) with
         | Some fd =>
-            let inh' := special (t_mapper c) in
-            ser_val (ser_regular (pred fuel) inh') (ser_regular (pred fuel) []) (f_ty fd) (getattr_m c a (f_name fd))
+            (* the bare value is produced by serialize_val WITHOUT the class's mapper: an outer
+               TO_CAMELCASE / TO_LOWERCASE does not reach the nested documents in the compact form *)
+            ser_val (ser_regular (pred fuel) []) (ser_regular (pred fuel) []) (f_ty fd) (getattr_m c a (f_name fd))
         | None => ser_regular fuel [] cn v
         end
     | _, _ => Raise Unmodelled
